@@ -208,3 +208,92 @@ def classify_formal(name):
 
 def run_kernel(info, closure, **kw):
   return Run(info.key, closure=closure, **kw)
+
+
+def kernel_summary(key):
+  """per formal of kernel `key`, over all closure specialisations:
+  r (read), w (written), acc (accumulated: `+=`, atomic_*), plain (plain store).
+  Falls back to a syntactic summary when the kernel is outside the dialect."""
+  from .sym import ArrRef
+
+  info = extract.get_func(key)
+  formals = [a.arg for a in info.node.args.args]
+  out = {f: {"r": False, "w": False, "acc": False, "plain": False} for f in formals}
+  note = ""
+  try:
+    for cl in specialisations(info):
+      run = run_kernel(info, {k: v for k, v in cl.items() if k != "$label"}, fast=True)
+      ids = {v.aid: n for n, v in run.params.items() if isinstance(v, ArrRef)}
+      for a in run.ex.st.log:
+        n = ids.get(a.arr.aid)
+        if n is None or a.guard is False:
+          continue
+        if a.kind == "r":
+          out[n]["r"] = True
+        else:
+          out[n]["w"] = True
+          if (a.kind == "atomic" and a.op not in ("or", "and", "min", "max", "exch", "cas")) or a.op == "aug":
+            out[n]["acc"] = True  # idempotent atomics (or/min/max) are not accumulation
+          else:
+            out[n]["plain"] = True
+            # does the kernel only ever store zero into this array (a zeroing kernel)?
+            v = a.value
+            from .sym import Vec, is_conc
+
+            def _z(c):
+              if is_conc(c):
+                return c == 0
+              if isinstance(c, z3.ExprRef) and z3.is_int_value(c):
+                return c.as_long() == 0
+              if isinstance(c, z3.ExprRef) and z3.is_rational_value(c):
+                return c.as_fraction() == 0
+              return False
+
+            comps = v.comps if isinstance(v, Vec) else [v]
+            is_zero = v is not None and not isinstance(v, tuple) and all(_z(c) for c in comps)
+            out[n]["nonzero_store"] = out[n].get("nonzero_store", False) or not is_zero
+            # is every plain store indexed by bare thread ids (one cell per thread of the grid)?
+            pure = bool(a.idx) and all(isinstance(i, z3.ExprRef) and z3.is_const(i) and i.decl().name().startswith("tid") for i in a.idx)
+            out[n]["impure_store"] = out[n].get("impure_store", False) or not pure
+  except Exception as e:  # Unsupported or translator limitation: syntactic summary
+    note = f"syntactic summary ({type(e).__name__}: {str(e)[:80]})"
+    out = syntactic_summary(info)
+  return {"key": key, "formals": out, "note": note, "hash": info.source_hash}
+
+
+def syntactic_summary(info):
+  """conservative AST summary: subscript stores / aug-assigns / atomics on a formal, loads, and
+  formals handed to other functions (treated as read and written unless named *_in)"""
+  formals = [a.arg for a in info.node.args.args if a.annotation is not None and "array" in ast.unparse(a.annotation)]
+  out = {a.arg: {"r": False, "w": False, "acc": False, "plain": False} for a in info.node.args.args}
+
+  def root(n):
+    while isinstance(n, ast.Subscript):
+      n = n.value
+    return n.id if isinstance(n, ast.Name) else None
+
+  for n in ast.walk(info.node):
+    if isinstance(n, ast.Assign):
+      for t in n.targets:
+        if isinstance(t, ast.Subscript) and root(t) in formals:
+          out[root(t)]["w"] = out[root(t)]["plain"] = True
+    elif isinstance(n, ast.AugAssign) and isinstance(n.target, ast.Subscript) and root(n.target) in formals:
+      r_ = root(n.target)
+      out[r_]["w"] = out[r_]["acc"] = out[r_]["r"] = True
+    elif isinstance(n, ast.Call):
+      f = ast.unparse(n.func)
+      if f.startswith("wp.atomic_") and n.args and root(n.args[0]) in formals:
+        r_ = root(n.args[0])
+        out[r_]["w"] = out[r_]["acc"] = True
+      elif f.startswith(("wp.tile_store", "wp.tile_atomic")) and n.args and root(n.args[0]) in formals:
+        out[root(n.args[0])]["w"] = out[root(n.args[0])]["plain"] = True
+      else:
+        for a in n.args:
+          r_ = root(a) if isinstance(a, (ast.Name, ast.Subscript)) else None
+          if r_ in formals and not f.startswith("wp.atomic_"):
+            out[r_]["r"] = True
+            if not r_.endswith("_in") and not f.startswith(("wp.tile_load", "wp.")):
+              out[r_]["w"] = out[r_]["plain"] = True
+    elif isinstance(n, ast.Subscript) and isinstance(n.ctx, ast.Load) and root(n) in formals:
+      out[root(n)]["r"] = True
+  return out
